@@ -384,9 +384,7 @@ class Ctx:
                 name = self.sort(ty)
                 c = self.const("lst", name)
                 w = self.wrap(c, ty)
-                i = self.bvar("i", "Int")
-                self.assumptions.append(And(Eq(w.n, v.n) if True else TRUE,
-                                            ForAll([i], Implies(And(Le(Int(0), i), Lt(i, v.n)), veq(self, w.at(i), v.at(i))))))
+                self.assumptions.append(veq(self, w, v))      # part-wise for concatenations (ground instances for single elements)
                 return c
             if k == "set" and isinstance(v, VSet):
                 if v.src is not None and v.src.sort == self.sort(ty):
@@ -415,6 +413,13 @@ class Ctx:
     def oblige(self, label, kind, pc, goal, where=""):
         if smt.is_true(goal):
             self.trivial.append(label)
+            return
+        if goal.conj and len(goal.conj) > 1:
+            # a conjunction is proved conjunct by conjunct (earlier conjuncts become hypotheses of later ones)
+            hyps = list(pc)
+            for k, g in enumerate(goal.conj):
+                self.oblige(f"{label} [conjunct {k + 1}/{len(goal.conj)}]", kind, hyps, g, where)
+                hyps = hyps + [g]
             return
         self.obligations.append(Obligation(label, kind, pc, goal, where))
 
@@ -469,6 +474,8 @@ def veq(ctx, a, b, st=None):
             ctx.bound.pop()
         return And(Eq(a.n, b.n), ForAll([i], Implies(And(Le(Int(0), i), Lt(i, a.n)), body)))
     if isinstance(a, VSet) and isinstance(b, VSet):
+        if a.parts is not None and b.parts is not None:
+            return And(subset_by_parts(ctx, a, b), subset_by_parts(ctx, b, a))
         x = ctx.bvar("x", ctx.sort(a.ety))
         xv = ctx.wrap(x, a.ety)
         return ForAll([x], Eq(a.has(xv), b.has(xv)))
@@ -491,6 +498,22 @@ def veq(ctx, a, b, st=None):
     if type(a) is not type(b):
         return FALSE
     raise Unsupported(f"equality of {type(a).__name__}")
+
+
+def subset_by_parts(ctx, a, b):
+    """a <= b for a set with an explicit description: every described element of a is in b (index quantifiers only)."""
+    out = []
+    for pk, pv in a.parts:
+        if pk == "one":
+            out.append(b.has(pv))
+        else:
+            i = ctx.bvar("i", "Int")
+            ctx.bound.append(i)
+            try:
+                out.append(ForAll([i], Implies(And(Le(Int(0), i), Lt(i, pv.n)), b.has(pv.at(i)))))
+            finally:
+                ctx.bound.pop()
+    return And(*out)
 
 
 def vis(ctx, a, b):
@@ -830,7 +853,15 @@ class Engine:
             if isinstance(base, VList):
                 if lo is None and hi is not None:
                     n = Ite(Lt(hi.t, base.n), Ite(Lt(hi.t, Int(0)), Int(0), hi.t), base.n)
-                    return VList(n, base.at, base.ety)
+                    parts = None
+                    if base.parts is not None:
+                        # keep the concatenation structure: part (off, sub) contributes its first n-off elements
+                        parts = []
+                        for off, sub in base.parts:
+                            k = Sub(n, off)
+                            kn = Ite(Lt(k, Int(0)), Int(0), Ite(Lt(k, sub.n), k, sub.n))
+                            parts.append((off, VList(kn, sub.at, sub.ety)))
+                    return VList(n, base.at, base.ety, parts=parts)
                 if lo is not None and hi is None:
                     l0 = Ite(Lt(lo.t, base.n), Ite(Lt(lo.t, Int(0)), Int(0), lo.t), base.n)
                     return VList(Sub(base.n, l0), lambda i: base.at(Add(i, l0)), base.ety)
@@ -854,6 +885,12 @@ class Engine:
                 self.side(And(Le(Int(0), idx.t), Lt(idx.t, base.n)), "IndexError")
                 return base.at(idx.t)
         if isinstance(base, VDict):
+            dflt = getattr(base, "default", None)
+            if dflt is not None:
+                if getattr(base, "empty", False):
+                    return VList(Int(0), lambda i: VStr(T("empty", "Str")), "str") if dflt == "list" else VSet(lambda x: FALSE, "str", parts=[])
+                empty = VList(Int(0), lambda i: base.get(idx).at(i), base.vty[1]) if dflt == "list" else VSet(lambda x: FALSE, base.vty[1], parts=[])
+                return vite(self.ctx, base.has(idx), base.get(idx), empty)
             self.side(base.has(idx), "KeyError")
             return base.get(idx)
         raise Unsupported(f"subscript of {type(base).__name__}")
@@ -940,6 +977,12 @@ class Engine:
                 return Lt(b.t, a.t)
             if isinstance(op, ast.GtE):
                 return Le(b.t, a.t)
+        if isinstance(a, VSet) and isinstance(b, VSet) and isinstance(op, ast.LtE):
+            if a.parts is not None:
+                return subset_by_parts(c, a, b)
+            x = c.bvar("x", c.sort(a.ety))
+            xv = c.wrap(x, a.ety)
+            return ForAll([x], Implies(a.has(xv), b.has(xv)))
         if isinstance(a, VStr) and isinstance(b, VStr):
             le = lambda x, y: app("str_le", x, y, sort="Bool")
             if isinstance(op, ast.LtE):
@@ -962,7 +1005,11 @@ class Engine:
             return container.has(x)
         if isinstance(container, VDict):
             return container.has(x)
+        if isinstance(container, VList) and container.parts is not None:
+            return Or(*[self.contains(sub, x, st) for off, sub in container.parts])
         if isinstance(container, VList):
+            if re.fullmatch(r"\d+", container.n.s) and int(container.n.s) <= 3:
+                return Or(*[veq(c, container.at(Int(k)), x, st) for k in range(int(container.n.s))])
             i = c.bvar("i", "Int")
             c.bound.append(i)
             try:
@@ -998,7 +1045,8 @@ class Engine:
             if isinstance(a, VSet) and isinstance(b, VSet):
                 return VSet(lambda x: And(a.has(x), Not(b.has(x))), a.ety)
         if isinstance(node.op, ast.BitOr) and isinstance(a, VSet) and isinstance(b, VSet):
-            return VSet(lambda x: Or(a.has(x), b.has(x)), a.ety)
+            parts = (a.parts + b.parts) if (a.parts is not None and b.parts is not None) else None
+            return VSet(lambda x: Or(a.has(x), b.has(x)), a.ety, parts=parts)
         if isinstance(node.op, ast.BitAnd) and isinstance(a, VSet) and isinstance(b, VSet):
             return VSet(lambda x: And(a.has(x), b.has(x)), a.ety)
         raise Unsupported(f"binary op {type(node.op).__name__} on {type(a).__name__}, {type(b).__name__}")
@@ -1045,7 +1093,8 @@ class Engine:
             else:
                 out = concat_lists(c, out, v)
         if out is None:
-            return VList(Int(0), lambda i: (_ for _ in ()).throw(Unsupported("element of empty list literal")), "str")
+            junk = self.ctx.fresh("junk", "str")
+            return VList(Int(0), lambda i: junk, "str")
         return out
 
     def ev_Dict(self, node, env, st):
@@ -1350,9 +1399,27 @@ class Engine:
                     return VInt(v.n)
                 if isinstance(v, VTuple):
                     return VInt(Int(len(v.items)))
+                if isinstance(v, (VDict, VSet)):
+                    return VInt(self.cardinality(v))
                 raise Unsupported(f"len of {type(v).__name__}")
+            if name == "next" and len(node.args) == 1 and isinstance(node.args[0], ast.Call) and isinstance(node.args[0].func, ast.Name) \
+                    and node.args[0].func.id == "iter" and len(node.args[0].args) == 1:
+                d = self.ev(node.args[0].args[0], env, st)
+                if not isinstance(d, (VDict, VSet)):
+                    raise Unsupported("next(iter(x)) of " + type(d).__name__)
+                ety = d.kty if isinstance(d, VDict) else d.ety
+                k = c.fresh("first", ety)
+                x = c.bvar("x", c.sort(ety))
+                nonempty = Exists([x], d.has(c.wrap(x, ety)))
+                if c.bound:
+                    raise Unsupported("next(iter(x)) under a binder")
+                c.assumptions.append(Implies(nonempty, d.has(k)))
+                self.side(nonempty, "StopIteration")
+                return k
             if name == "next" and len(node.args) == 1 and isinstance(node.args[0], ast.GeneratorExp):
                 return self.ev_next(node.args[0], env, st)
+            if name == "next" and len(node.args) == 2 and isinstance(node.args[0], ast.GeneratorExp):
+                return self.ev_next(node.args[0], env, st, default=node.args[1])
             if name == "set" and len(node.args) <= 1:
                 if not node.args:
                     return VSet(lambda x: FALSE, "str")
@@ -1371,6 +1438,8 @@ class Engine:
                 return VBool(truthy(c, self.ev(node.args[0], env, st)))
             if name == "cast" and len(node.args) == 2:
                 return self.ev(node.args[1], env, st)
+            if name == "cls" and self.cur_class == "ReferenceTuple" and len(node.args) == 2 and not node.keywords:
+                return VTuple([self.ev(a, env, st) for a in node.args], "ReferenceTuple")
             if name == "ReferenceTuple" and len(node.args) == 2:
                 return VTuple([self.ev(a, env, st) for a in node.args], "ReferenceTuple")
             if name == "DuplicateSummary" and len(node.args) == 3:
@@ -1383,12 +1452,28 @@ class Engine:
                 v = self.ev(node.args[0], env, st)
                 if isinstance(v, VDict):
                     return VDict(v.has, v.get, v.kty, v.vty)
+            if name == "defaultdict" and len(node.args) == 1 and isinstance(node.args[0], ast.Name) and node.args[0].id in ("list", "set"):
+                junk = c.fresh("junk", "str")
+                d = VDict(lambda k: FALSE, lambda k: junk, "str", "str")
+                d.empty = True
+                d.default = node.args[0].id
+                return d
             if name == "sorted":
                 raise Unsupported("sorted() in spec position")
             raise Unsupported(f"call {name}(...)")
         if isinstance(fn, ast.Attribute):
             recv = self.unopt(self.ev(fn.value, env, st), "AttributeError")
             m = fn.attr
+            if isinstance(recv, VStr):
+                if m == "join" and len(node.args) == 1:
+                    a0 = node.args[0]
+                    inner = a0.args[0] if (isinstance(a0, ast.Call) and isinstance(a0.func, ast.Name) and a0.func.id == "sorted" and len(a0.args) == 1 and not a0.keywords) else None
+                    if inner is not None:
+                        lst = self.ev(inner, env, st)
+                        if isinstance(lst, VList) and lst.ety == "str" and lst.src is not None:
+                            self.ctx.need_join_sorted = True
+                            return VStr(app("join_sorted", recv.t, lst.src, sort="Str"))
+                    raise Unsupported("str.join form")
             args = [self.ev(a, env, st) for a in node.args]
             if isinstance(recv, VStr):
                 if m == "startswith" and len(args) == 1 and isinstance(args[0], VStr):
@@ -1440,6 +1525,8 @@ class Engine:
                         elif isinstance(o, VList):
                             parts = recv.parts + [("many", o)]
                     return VSet(lambda x, o=o: f(recv.has(x), self.contains(o, x, st)), recv.ety, parts=parts)
+                if m == "issubset" and len(args) == 1 and recv.parts is not None and isinstance(args[0], VSet):
+                    return VBool(subset_by_parts(c, recv, args[0]))
                 if m == "issubset" and len(args) == 1:
                     x = c.bvar("x", c.sort(recv.ety))
                     xv = c.wrap(x, recv.ety)
@@ -1460,7 +1547,21 @@ class Engine:
             raise Unsupported(f"method .{m} on {type(recv).__name__}")
         raise Unsupported("call form")
 
-    def ev_next(self, gen, env, st):
+    def cardinality(self, v):
+        """len() of a dict / set: an integer constrained enough for comparisons with 0, 1 and 2."""
+        c = self.ctx
+        if c.bound:
+            raise Unsupported("len() of a dict/set under a binder")
+        ety = v.kty if isinstance(v, VDict) else v.ety
+        n = c.const("card", "Int")
+        a, b = c.bvar("a", c.sort(ety)), c.bvar("b", c.sort(ety))
+        av, bv = c.wrap(a, ety), c.wrap(b, ety)
+        c.assumptions.append(Le(Int(0), n))
+        c.assumptions.append(Eq(Eq(n, Int(0)), Not(Exists([a], v.has(av)))))
+        c.assumptions.append(Eq(Le(Int(2), n), Exists([a, b], And(v.has(av), v.has(bv), Not(veq(c, av, bv))))))
+        return n
+
+    def ev_next(self, gen, env, st, default=None):
         c = self.ctx
         if len(gen.generators) != 1:
             raise Unsupported("next over nested generators")
@@ -1484,9 +1585,11 @@ class Engine:
         exists = Exists([i], And(rng(i), probe))
         ax = Implies(exists, And(rng(idx), cond_at(idx), ForAll([j], Implies(And(Le(Int(0), j), Lt(j, idx)), Not(cond_at(j))))))
         c.assumptions.append(ForAll(used, ax) if used else ax)
-        self.side(exists, "StopIteration")
         env2 = dict(env)
         env2.update(self.bind_target(g.target, xs.at(idx)))
+        if default is not None:
+            return vite(c, exists, self.ev(gen.elt, env2, st), self.ev(default, env, st))
+        self.side(exists, "StopIteration")
         return self.ev(gen.elt, env2, st)
 
     def call_helper(self, name, node, env, st):
